@@ -137,8 +137,13 @@ Proof.
     assert (length F = 1 \/ length F = 2 \/ length F = 3)%nat as [-> | [-> | ->]] by (unfold F in *; cbn [length] in *; lia); cbn; lia.
 Qed.
 
+Lemma fpos_zero : fpos fzero = false.
+Proof. vm_compute. reflexivity. Qed.
 Lemma duration_plain d fr tr : ttml_duration (mkDur d 0 0) fr tr = d.
-Proof. unfold ttml_duration. cbn [td_ticks td_frames td_d]. cbn [Z.ltb Z.compare andb]. lia. Qed.
+Proof.
+  unfold ttml_duration, mkDur. cbn [td_ticks td_frames td_d td_fval td_tval]. rewrite fpos_zero.
+  cbn [Z.ltb Z.compare andb orb]. lia.
+Qed.
 
 (* clock time with or without a 1-3 digit fraction: the instant it means, exactly, for any rates *)
 Theorem clock_time hs ms ss fs fr tr : digits hs -> digits ms -> digits ss -> digits fs ->
@@ -173,22 +178,32 @@ Proof.
   assert (E3 : parse_duration ((hs ++ [colon] ++ ms ++ [colon] ++ ss) ++ s_dot000) dot 3 = Some (hms_ns hs ms ss + frac_ns [48; 48; 48]%N)).
   { rewrite <- (parse_duration_clock hs ms ss [48; 48; 48]%N); try assumption; try reflexivity; try (cbn; lia).
     unfold clock_expr. rewrite <- !app_assoc. reflexivity. vm_compute. discriminate. }
-  rewrite E3. unfold ttml_duration. cbn [td_ticks td_frames td_d]. cbn [Z.ltb Z.compare andb].
+  rewrite E3. unfold ttml_duration, mkDur. cbn [td_ticks td_frames td_d td_fval td_tval]. rewrite fpos_zero.
+  cbn [Z.ltb Z.compare andb orb]. rewrite orb_false_r.
   f_equal. unfold frames_term. change (frac_ns [48; 48; 48]%N) with 0. lia.
 Qed.
 
-(* offset times: the parsed value, then one multiplication (h, m, s, ms) or the frames / ticks term *)
+(* offset times: the parsed value, then one multiplication (h, m, s, ms) or the frames / ticks term on the value
+   itself (fraction included); a count that parses to 0 contributes nothing *)
 Theorem offset_time ip fp m fr tr : digits ip -> digits fp -> ip <> [] ->
   ttml_time (offset_expr ip fp m) fr tr =
-  Some (match m with
-        | Mt => let t := to_Z (parse_dec ip fp) in if (0 <? t) && (0 <? tr) then ticks_term t tr else 0
-        | Mf => let f := to_Z (parse_dec ip fp) in if (0 <? f) && (0 <? fr) then frames_term f fr else 0
+  Some (let v := parse_dec ip fp in
+        match m with
+        | Mt => if ((0 <? to_Z v) || fpos v) && (0 <? tr)
+                then (if fpos v then ticks_val_term v tr else ticks_term (to_Z v) tr) else 0
+        | Mf => if ((0 <? to_Z v) || fpos v) && (0 <? fr)
+                then (if fpos v then frames_val_term v fr else frames_term (to_Z v) fr) else 0
         | _ => offset_term ip fp m
         end).
 Proof.
   intros Hi Hf Hne. unfold ttml_time, ttml_unmarshal. rewrite match_offset_expr by assumption.
-  unfold ttml_duration, offset_term, ticks_term, frames_term.
-  destruct m; cbn [td_ticks td_frames td_d]; cbn [Z.ltb Z.compare andb]; f_equal; try lia.
+  unfold ttml_duration, offset_term, ticks_term, frames_term, ticks_val_term, frames_val_term, mkDur.
+  destruct m; cbn [td_ticks td_frames td_d td_fval td_tval]; rewrite ?fpos_zero; cbn [Z.ltb Z.compare andb orb]; cbv zeta;
+    f_equal; try lia.
+  - destruct (((0 <? to_Z (parse_dec ip fp)) || fpos (parse_dec ip fp)) && (0 <? fr)); [|reflexivity].
+    destruct (fpos (parse_dec ip fp)); reflexivity.
+  - destruct (((0 <? to_Z (parse_dec ip fp)) || fpos (parse_dec ip fp)) && (0 <? tr)); [|reflexivity].
+    destruct (fpos (parse_dec ip fp)); reflexivity.
 Qed.
 
 (* reading what the writer prints: truncation to the millisecond, for every non-negative instant *)
